@@ -102,6 +102,7 @@ pub fn run(args: &Args) {
     let mut cfg = GenCfg::new(Profile::Full);
     cfg.nonatomic_skip_rules = true;
     cfg.shapes_pct = 45;
+    cfg.skipper_pct = 8;
     // witnesses of fixed / known entries are replayed on every run (shard 0)
     if args.shard == 0 {
         for k in vmon::shard::load_known(&args.known, "C05") {
